@@ -122,6 +122,37 @@ func (s *scn3) mOpen(t *inst, eph crypto.PrivateKeyI) *msess {
 	return ms
 }
 
+// mOpenLow answers t's key message with the low-order point lp and, if t goes on, finds the session keys
+// among the nine secrets a low-order point can produce (trial decryption of t's first frame).
+func (s *scn3) mOpenLow(t *inst, lp []byte) *msess {
+	k := t.take(kLen)
+	if k == nil {
+		return nil
+	}
+	te := parseK(k)
+	t.give(encodeK(lp))
+	s.ring.addLowOrder("M/low/"+t.name, lp, te)
+	f := t.take(frameSize)
+	if f == nil {
+		return nil
+	}
+	defer t.untake(f)
+	cands := [][]byte{make([]byte, 32)}
+	cands = append(cands, edwardsLowOrder[:8]...)
+	for _, sec := range cands {
+		send, rcv, ch, err := crypto.HKDFSecretsAndChallenge(sec, lp, te)
+		if err != nil {
+			continue
+		}
+		ms := &msess{ephPub: lp, peerEph: te, send: send, rcv: rcv, challenge: ch[:]}
+		if _, ok := openFrame(ms.rcv, 0, f); ok {
+			s.ring.addSess("M<->"+t.name+"(low-order)", ms)
+			return ms
+		}
+	}
+	return nil
+}
+
 func (s *scn3) mRecvSig(ms *msess, t *inst) *lib.Signature {
 	f := t.take(frameSize)
 	if f == nil || ms == nil {
@@ -437,7 +468,9 @@ func strategies() []strategy {
 		{name: "fwd-low-order-ephemeral-to-both", endKind: "fwd", args: rangeArgs(len(lowPoints())), bls: false, run: func(s *scn3) {
 			s.start(one, one)
 			lp := lowPoints()[s.p.Arg]
-			s.relay(s.X, s.Y, relayHooks{kToY: func(_, _ []byte) []byte { return encodeK(lp) }, kToX: func(_, _ []byte) []byte { return encodeK(lp) }})
+			s.relay(s.X, s.Y, relayHooks{
+				kToY: func(k, _ []byte) []byte { s.ring.addLowOrder("M/low", lp, parseK(k)); return encodeK(lp) },
+				kToX: func(k, _ []byte) []byte { s.ring.addLowOrder("M/low", lp, parseK(k)); return encodeK(lp) }})
 		}},
 		// ---- M is an endpoint towards X
 		{name: "m-own-identity", endKind: "end", args: rangeArgs(len(mKeyTypes)), bls: true, run: func(s *scn3) {
@@ -619,6 +652,31 @@ func strategies() []strategy {
 				s.mSendMeta(msy, s.Y, xm)
 			}
 		}},
+		{name: "m-in-the-middle-low-order-ephemeral", endKind: "end", args: rangeArgs(len(lowPoints())), bls: true, run: func(s *scn3) {
+			// man in the middle WITHOUT an ephemeral key of its own: M answers both key messages with a
+			// low-order point. If an endpoint goes on, its shared secret is one of nine known values; M finds
+			// it by trial decryption of the endpoint's first frame and re-encrypts each side's signature and
+			// meta for the other side (the challenge both sides sign is then the same).
+			s.start(one, one)
+			lp := lowPoints()[s.p.Arg]
+			msx, msy := s.mOpenLow(s.X, lp), s.mOpenLow(s.Y, lp)
+			if msx == nil || msy == nil {
+				return
+			}
+			xs, ys := s.mRecvSig(msx, s.X), s.mRecvSig(msy, s.Y)
+			if xs == nil || ys == nil {
+				return
+			}
+			s.mSendSig(msx, s.X, ys.PublicKey, ys.Signature)
+			s.mSendSig(msy, s.Y, xs.PublicKey, xs.Signature)
+			xm, ym := s.mRecvMeta(msx, s.X), s.mRecvMeta(msy, s.Y)
+			if ym != nil {
+				s.mSendMeta(msx, s.X, ym)
+			}
+			if xm != nil {
+				s.mSendMeta(msy, s.Y, xm)
+			}
+		}},
 		{name: "m-identity-without-private-key", endKind: "end", args: rangeArgs(8), run: func(s *scn3) {
 			// small-order ed25519 "public keys": anybody can make signatures that verify.
 			s.start(one, one)
@@ -662,6 +720,7 @@ func strategies() []strategy {
 			k := s.X.take(kLen)
 			lp := lowPoints()[s.p.Arg]
 			s.ring.addDerived("M/zero", nil, parseK(k))
+			s.ring.addLowOrder("M/low", lp, parseK(k))
 			s.X.give(encodeK(lp))
 			if f := s.X.take(frameSize); f != nil {
 				// X went on: try to talk to it with every key M has
